@@ -118,6 +118,8 @@ func (m *mixedSpace) Ops(w *World) []Op {
 			ops = append(ops, Op{K: "commit", N: 1}, Op{K: "commit", N: 3}, Op{K: "ncommit", N: 2})
 		case "ev:commit1":
 			ops = append(ops, Op{K: "commit", N: 1})
+		case "ev:ncommit":
+			ops = append(ops, Op{K: "ncommit", N: 2})
 		case "ev:cdrop":
 			ops = append(ops, Op{K: "cdrop"})
 		case "ev:creopen":
@@ -290,6 +292,10 @@ func init() {
 			}
 			specs = append(specs, collEventSpecs(r, []string{"crash", "ev:commit1"}, 5, 4)...)
 			specs = append(specs,
+				// detached containers, re-attachment, and REJECTED requests that carry a container (a refused value must
+				// keep its registers: the next commit may not delete them)
+				Spec{Name: "crash-rej-detach-T256", Kind: "nested", T: 256, Keys: 2, Classes: []string{"t", "h", "A"}, Oracles: []string{"crash", "events"}, Depth: 5,
+					Extra: map[string]int{"rootmap": 0, "lr": 2, "lc": 2, "maxc": 2, "depth": 2, "nosettype": 1, "rej": 1, "detach": 1, "nocdrop": 1}},
 				Spec{Name: "crash-arr-kinds-T256", Kind: "arr-small", T: 256, L: 3, Classes: []string{"t", "limA+", "s:A:t", "A:limA-,limA-"}, Oracles: []string{"crash", "ev:commit1"}, Depth: 4},
 				Spec{Name: "crash-map-keys-T256", Kind: "map-small", T: 256, Keys: 2, Extra: map[string]int{"kLim": 1}, Classes: []string{"t", "limM+", "A:t"}, Oracles: []string{"crash", "ev:commit1"}, Depth: 4},
 			)
@@ -308,11 +314,11 @@ func init() {
 		r.ExploreSpecs(specs)
 	}})
 	RegisterCheck(&CheckDef{ID: "C08", Level: "model_checking", Run: func(r *Run) {
-		r.Rule = "explicit-state BFS over histories with the events commit, commit+drop-cache and commit+reopen-from-ledger as alphabet operations (every placement of events between operations); differential oracle on every visited state: per-operation results equal those of the same history replayed without any event, content equals the model, final registers byte-identical to the event-free twin (content-equal when compact maps occur), structure valid after final reopen"
+		r.Rule = "explicit-state BFS over histories with the events commit, commit+drop-cache and commit+reopen-from-ledger as alphabet operations (every placement of events between operations; the commit is the deterministic one or the order-relaxed one); differential oracle on every visited state: per-operation results equal those of the same history replayed without any event, content equals the model, final registers byte-identical to the event-free twin (content-equal when compact maps occur), structure valid after final reopen"
 		r.Assumptions = []string{
 			"after a cache drop child handles are re-obtained through their parent; after a reopen all handles are re-obtained by root ID (one live handle per container)",
 		}
-		or := []string{"twin", "ev:commit1", "ev:cdrop", "ev:creopen"}
+		or := []string{"twin", "ev:commit1", "ev:ncommit", "ev:cdrop", "ev:creopen"}
 		var specs []Spec
 		if !r.Thorough() {
 			specs = []Spec{
